@@ -4,7 +4,7 @@ import os, sys, json, time, shutil, re, concurrent.futures, subprocess
 ROOT = os.path.dirname(os.path.abspath(__file__))
 sys.path.insert(0, os.path.join(ROOT, 'emit'))
 import verif
-from configs import CONFIGS, TIERS
+from configs import CONFIGS, TIERS, QUICK
 
 GLOBAL_PROPS = {'C02', 'C03', 'C04', 'C06', 'C12', 'C13'}     # carried by every body-level proof (invariant, lifetime, ledger, arithmetic, byte frame)
 
@@ -81,6 +81,9 @@ def run_check(prop, tier, jobs):
     t0 = time.time()
     seed = int(os.environ.get('VERIF_SEED', '0') or 0)
     cfgs = TIERS[tier]
+    plan = QUICK.get(prop) if tier == 'quick' else None
+    if plan is not None:
+        cfgs = [c for c in cfgs if c in plan]
     wd = verif.workdir()
     tasks = []
     builts = {}
@@ -96,6 +99,15 @@ def run_check(prop, tier, jobs):
                 build_errors.append('%s: extraction failed: %s' % (cn, str(e)[:500]))
                 continue
             builts[cn] = b
+            if plan is not None:
+                # quick tier: the planned proofs of this property in this configuration
+                for item in plan[cn]:
+                    fn0 = item.split('@')[0]
+                    all_spec_names.add(fn0)
+                    if fn0 in b.model.specs and fn0 in b.model.em.by_cname:
+                        found_names.add(fn0)
+                        tasks.append((b, item))
+                continue
             for fn, sp in sorted(b.model.specs.items()):
                 if sp.harness is None:
                     continue
